@@ -134,8 +134,7 @@ ORefUnit(T)  == Obs.types[T].ref_unit_q
 (* The operator table generated from the declared derivations              *)
 (* (transcription of codegen_impl_mul_div_qties).  An entry is             *)
 (* [op, l, r, res].                                                        *)
-OpsOf(T) ==
-    LET dv == DDerive(T) IN
+OpsOfDv(T, dv) ==
     IF dv.op = "-" THEN {}
     ELSE IF dv.op = "*"
          THEN {[op |-> "mul", l |-> dv.l, r |-> dv.r, res |-> T],
@@ -146,5 +145,6 @@ OpsOf(T) ==
                [op |-> "mul", l |-> T, r |-> dv.r, res |-> dv.l],
                [op |-> "mul", l |-> dv.r, r |-> T, res |-> dv.l],
                [op |-> "div", l |-> dv.l, r |-> T, res |-> dv.r]}
+OpsOf(T) == OpsOfDv(T, DDerive(T))
 Ops == UNION {OpsOf(T) : T \in DOMAIN Decl.types}
 =============================================================================
